@@ -242,6 +242,12 @@ def run_sample(case):
     if not np.array_equal(s, s2):
         return Outcome(failure("sample_not_reproducible", "same numpy seed gives different samples", kind=sp["k"]), True, labels)
     if case["size"] == "ks":
+        # a continuous law can only be recognised where the floating-point grid is fine compared with the spread of
+        # the samples: with a width of a few ulp of the location the samples are a handful of discrete values
+        spread = float(np.max(s) - np.min(s)) if np.size(s) else 0.0
+        grid = float(np.spacing(max(abs(float(np.max(s))), abs(float(np.min(s))))))
+        if spread < 1e5 * grid:
+            return Outcome(None, False, labels + ["samples_on_a_coarse_float_grid"], skipped=True)
         if sp["k"] == "uniform":
             cdf = lambda x: (x - lo) / (hi - lo)
         elif sp["k"] == "gaussian":
@@ -396,8 +402,13 @@ def run_alg(case):
         raise
     if isinstance(want_g, complex) or not np.isfinite(want_g):
         return Outcome(None, False, labels + ["domain_error"], skipped=True)
-    with np.errstate(all="ignore"):
-        got_g = d.guess
+    try:
+        with np.errstate(all="ignore"):
+            got_g = d.guess
+    except (ZeroDivisionError, OverflowError):
+        # the library divides as a * (1/b) with python floats, where a zero-valued sub-expression raises although
+        # numpy in the reference quietly produced inf: division by zero is outside the arithmetic's domain
+        return Outcome(None, False, labels + ["domain_error"], skipped=True)
     if not _close(got_g, want_g):
         return Outcome(failure("derived_guess", "derived guess %r != operation on base guesses %r" % (got_g, want_g)), True, labels)
     # samples: the same numpy seed, leaves drawn in the order the derived prior stores them
